@@ -61,6 +61,8 @@ import PS.Proofs.Enum.GInst
 import PS.Proofs.Enum.USoundRun
 import PS.Proofs.Enum.UBridge
 import PS.Proofs.Enum.UUnamb
+import PS.Proofs.Enum.UCompleteRun
+import PS.Proofs.Enum.UOrderCheck
 namespace PS.C02HS
 open PS PS.G
 
@@ -617,6 +619,54 @@ example : ∀ s' out b, UHS.take Eu 60 30 (UHS.St.empty Gu) [] = some (s', out, 
   fun s' out b h => C02_HS_U_nodup_det Eu Eu_hyp Eu_det (by decide) (fun _ => rfl) 60 30 s' out b h
 example : ∀ s' out b, UHS.take Eub 60 30 (UHS.St.empty Gu) [] = some (s', out, b) → out.Nodup :=
   fun s' out b h => C02_HS_U_nodup_det Eub Eub_hyp Eub_det (by decide) (fun _ => rfl) 60 30 s' out b h
+
+/-- **COMPLETENESS WHEN THE GENERATOR STOPS** — unambiguous-grammar machine (heap search
+    `UHeapSearch` or any priority type with a monotone `combine`; no threshold, no filter) on an ACYCLIC
+    UNAMBIGUOUS grammar with several start symbols: if after `k` calls of `next` the generator has raised
+    `StopIteration`, every member of the grammar (`U.genU`) was yielded.
+    `UHS.RHyp` (decidable on a literal grammar: `UHS.rhyp_prob`): dict keys distinct, `rank` decreases
+    along the alternatives, alternatives unambiguous, start languages disjoint, weights non-negative.
+    Proof: the invariant `UHS.CInv` — (I2) `hash_table_program[S]` = heap ∪ popped, (I3) every argument
+    position of every popped program has its successor program pushed or an exhausted argument
+    non-terminal, the initial program of every alternative was pushed — is kept by every call
+    (`UHS.big_order`); an exhausted non-terminal stays exhausted (`UHS.big_emptyKeep`); an exhausted
+    non-terminal has popped its whole language (`UHS.exhausted_complete`: induction on the rank, then a
+    sweep over the argument positions along the successor chains); when the start heap is empty every
+    start symbol answered `None` and everything it popped was handed over (`UHS.OC`). -/
+theorem C02_HS_U_complete (E : UHS.Env U π) (rank : UHS.UNT U → Nat) (Good : π → Prop) (R : RHyp E rank Good)
+    (d : UHS.UNT U) (fuel k : Nat) (s' : UHS.St U π) (out : List Prog)
+    (h : UHS.take E fuel k (UHS.St.empty E.G) [] = some (s', out, true)) :
+    ∀ p, PS.U.genU (E.G.toUCFG d) p = true → p ∈ out := by
+  intro p hp
+  obtain ⟨nt, w, hw, hd⟩ := (derStart_iff_genU E d p).mpr hp
+  exact take_complete R fuel k s' out h p nt w hw hd
+
+/-- **exactly once**: when the generator stops, its output lists the language without repetition -/
+theorem C02_HS_U_exactly_once (E : UHS.Env U π) (rank : UHS.UNT U → Nat) (Good : π → Prop) (R : RHyp E rank Good)
+    (d : UHS.UNT U) (fuel k : Nat) (s' : UHS.St U π) (out : List Prog)
+    (h : UHS.take E fuel k (UHS.St.empty E.G) [] = some (s', out, true)) :
+    out.Nodup ∧ ∀ p, p ∈ out ↔ PS.U.genU (E.G.toUCFG d) p = true :=
+  ⟨(take_nodup E R.nhyp fuel k s' out true h).1,
+   fun p => ⟨fun hp => C02_HS_U_sound E R.ohyp.ghyp d fuel k s' out true h p hp,
+             fun hp => C02_HS_U_complete E rank Good R d fuel k s' out h p hp⟩⟩
+
+/-- the inner statement: in a quiescent state, an exhausted non-terminal has popped every program
+    derivable from it -/
+theorem C02_HS_U_exhausted_complete (E : UHS.Env U π) (rank : UHS.UNT U → Nat) (Good : π → Prop) (H : OHyp E rank Good)
+    (s : UHS.St U π) (hb : Base E s) (hall : All E rank s) (nt : UHS.UNT U) (hf : Full E rank s nt)
+    (hempty : s.heapOf nt = []) (p : Prog) (hg : Der E p nt) : ∃ k, AList.lookup k (s.succOf nt) = some p :=
+  exhausted_complete H hb hall (rank nt) nt rfl hf hempty p hg
+
+def uRank2 (nt : UHS.UNT Nat) : Nat := nt.2
+
+theorem Eu_rhyp : RHyp Eu uRank2 (fun v : Rat => 0 ≤ v) :=
+  rhyp_prob Eu uRank2 rfl rfl (by decide) (by decide) (by decide) (by decide) (by decide) (by decide) (by decide)
+    (by decide +kernel) (by decide) (fun _ => rfl)
+
+/-- on the three-start grammar the generator stops after its 22 programs, which are exactly the language -/
+example : ∀ s' out, UHS.take Eu 60 30 (UHS.St.empty Gu) [] = some (s', out, true) →
+    out.Nodup ∧ ∀ p, p ∈ out ↔ PS.U.genU (Gu.toUCFG s0) p = true :=
+  fun s' out h => C02_HS_U_exactly_once Eu uRank2 _ Eu_rhyp s0 60 30 s' out h
 end UMachine
 
 end PS.C02HS
